@@ -346,17 +346,17 @@ def _short(v):
     return str(v)
 
 
-def call_symbolic(I, c, a):
+def call_symbolic(I, c, a, cfg=None):
     fn = I.find(c.key)
     if c.invoke is not None:
-        return c.invoke(I, fn, a)
+        return c.invoke(I, fn, a, NS(cfg or {}))
     return I.call(fn, [], dict(a.__dict__))
 
 
-def call_real(c, a):
+def call_real(c, a, cfg=None):
     real = real_object(c.key)
     if c.invoke is not None:
-        return c.invoke(None, real, a)
+        return c.invoke(None, real, a, NS(cfg or {}))
     return real(**a.__dict__)
 
 
@@ -383,7 +383,7 @@ def run_path(I, c, cfg, decisions):
     old = NS(I.snapshot(inp))
     outcome = None
     try:
-        result = call_symbolic(I, c, a)
+        result = call_symbolic(I, c, a, cfg)
         outcome = ("return", result)
     except Raised as r:
         outcome = ("raise", r.exc)
@@ -410,7 +410,12 @@ def run_path(I, c, cfg, decisions):
             if I.exc_matches(exc, et):
                 matched = True
                 g = _to_goal(when(old))
-                records.append(("raises-sound", name, list(ctx.pc), g))
+                ename = type(exc).__name__ if isinstance(exc, BaseException) else I.type_name(exc)
+                relaxed = None
+                if ("raise:" + ename) in c.known:
+                    regs = [_to_goal(reg(old)) for _, reg in c.known["raise:" + ename]]
+                    relaxed = (c.known["raise:" + ename][0][0], z3.Or(g, *regs))
+                records.append(("raises-sound", name, list(ctx.pc), g, relaxed))
                 if state is not None:
                     records.append(("raises-state", name, list(ctx.pc), _to_goal(state(a, old))))
                 break
@@ -504,7 +509,7 @@ def replay_concrete(c, cfg, model):
         warnings.simplefilter("ignore")
         try:
             with np.errstate(all="ignore"):
-                result = call_real(c, a)
+                result = call_real(c, a, cfg)
             outcome = ("return", result)
         except Exception as e:   # noqa
             outcome = ("raise", e)
